@@ -16,20 +16,20 @@ Lemma set_option_bt f s k v :
     (do v3 <- canon s k v;
      do ro <- resolve_for_set s k;
      do w <- store_value s k (fst ro) v3;
-     if negb (pv_eqb (snd w) v3) && negb (pv_eqb v3 (PStr (s2l "custom"))) then
+     if negb (pv_eqb (snd (fst w)) v3) && negb (pv_eqb v3 (PStr (s2l "custom"))) then
        match v3 with
        | PStr b =>
            match sassoc DEFAULT_DEPENDENTS b with
            | None => Err EKey
            | Some (optimization, debug) =>
-               do r1 <- set_option f (fst w) (debug_of k) (PBool debug) true;
+               do r1 <- set_option f (fst (fst w)) (debug_of k) (PBool debug) true;
                do r2 <- set_option f (fst r1) (optimization_of k) (PStr optimization) true;
-               Ok (fst r2, negb (pv_eqb (snd w) v3))
+               Ok (fst r2, negb (pv_eqb (snd (fst w)) v3) || snd w)
            end
        | PList _ => Err EOOM
        | _ => Err EKey
        end
-     else Ok (fst w, negb (pv_eqb (snd w) v3))).
+     else Ok (fst (fst w), negb (pv_eqb (snd (fst w)) v3) || snd w)).
 Proof.
   intros Hp Hb Hd. cbn [set_option]. unfold canon.
   destruct (sanitize_value s k v) as [v1|e]; cbn [bind]; [|reflexivity].
@@ -39,7 +39,7 @@ Proof.
   assert (G : forall v2,
     (do v3 <- validate (okind o) v2;
      do w <- store_value s k rk v3;
-     (let (s2, old) := w in
+     (let '(s2, old, unsaved) := w in
       if oreadonly o && (false || negb (pv_eqb old v3)) && negb true then Err EMeson
       else do s3 <- (if str_eqb (kname k) (s2l "prefix") && true && (false || negb (pv_eqb old v3))
                      then match old with
@@ -54,32 +54,32 @@ Proof.
                             | Some (optimization, debug) =>
                                 do r1 <- set_option f s3 (evolve_name k (s2l "debug")) (PBool debug) true;
                                 do r2 <- set_option f (fst r1) (evolve_name k (s2l "optimization")) (PStr optimization) true;
-                                Ok (fst r2, false || negb (pv_eqb old v3))
+                                Ok (fst r2, false || negb (pv_eqb old v3) || unsaved)
                             | None => Err EKey
                             end
                 | PList _ => Err EOOM
                 | _ => Err EKey
                 end
-           else Ok (s3, false || negb (pv_eqb old v3)))) =
+           else Ok (s3, false || negb (pv_eqb old v3) || unsaved))) =
     (do v3 <- validate (okind o) v2;
      do w <- store_value s k rk v3;
-     if negb (pv_eqb (snd w) v3) && negb (pv_eqb v3 (PStr (s2l "custom"))) then
+     if negb (pv_eqb (snd (fst w)) v3) && negb (pv_eqb v3 (PStr (s2l "custom"))) then
        match v3 with
        | PStr b =>
            match sassoc DEFAULT_DEPENDENTS b with
            | None => Err EKey
            | Some (optimization, debug) =>
-               do r1 <- set_option f (fst w) (debug_of k) (PBool debug) true;
+               do r1 <- set_option f (fst (fst w)) (debug_of k) (PBool debug) true;
                do r2 <- set_option f (fst r1) (optimization_of k) (PStr optimization) true;
-               Ok (fst r2, negb (pv_eqb (snd w) v3))
+               Ok (fst r2, negb (pv_eqb (snd (fst w)) v3) || snd w)
            end
        | PList _ => Err EOOM
        | _ => Err EKey
        end
-     else Ok (fst w, negb (pv_eqb (snd w) v3)))).
+     else Ok (fst (fst w), negb (pv_eqb (snd (fst w)) v3) || snd w))).
   { intros v2.
     destruct (validate (okind o) v2) as [v3|e]; cbn [bind]; [|reflexivity].
-    destruct (store_value s k rk v3) as [[s2 old]|e]; cbn [bind fst snd]; [|reflexivity].
+    destruct (store_value s k rk v3) as [[[s2 old] u]|e]; cbn [bind fst snd]; [|reflexivity].
     rewrite Hp, Hb. rewrite andb_false_r. cbn [andb orb bind]. rewrite andb_true_r.
     unfold debug_of, optimization_of.
     destruct (negb (pv_eqb old v3) && negb (pv_eqb v3 (PStr (s2l "custom")))); [|reflexivity].
@@ -92,9 +92,9 @@ Proof.
 Qed.
 
 (* the effect of the write itself (any host key whose name is not prefix) *)
-Lemma write_effect s t v v3 rk o s2 old :
+Lemma write_effect s t v v3 rk o s2 old u :
   kmach t = Host -> str_eqb (kname t) (s2l "prefix") = false -> pfx_ok s ->
-  canon s t v = Ok v3 -> resolve_for_set s t = Ok (rk, o) -> store_value s t rk v3 = Ok (s2, old) ->
+  canon s t v = Ok v3 -> resolve_for_set s t = Ok (rk, o) -> store_value s t rk v3 = Ok (s2, old, u) ->
   R s s2 /\
   (forall x, oslot s2 x = match wr_o (set_wr s t v) x with Some y => y | None => oslot s x end) /\
   (forall q, aslot s2 q = match wr_a (set_wr s t v) q with Some y => y | None => aslot s q end).
@@ -106,7 +106,7 @@ Proof.
     apply bind_ok in Ec as (v2 & _ & Ec). eapply validate_idem; exact Ec. }
   unfold store_value in Ew. rewrite Hg in Ew.
   destruct (dmem (options s) t) eqn:Em.
-  - rewrite (Hin eq_refl) in *. rewrite Hv in Ew. cbn [bind] in Ew. injection Ew as <- _.
+  - rewrite (Hin eq_refl) in *. rewrite Hv in Ew. cbn [bind] in Ew. injection Ew as <- _ _.
     split; [|split].
     + constructor; cbn; try reflexivity.
       * intros k. rewrite dget_dset. destruct (key_eqb t k) eqn:Ek; [|reflexivity].
@@ -116,7 +116,7 @@ Proof.
         rewrite dget_dset, (name_neq_prefix_key t Hp). reflexivity.
     + intros x. unfold oslot; cbn. rewrite dget_dset. destruct (key_eqb t x); reflexivity.
     + intros q. reflexivity.
-  - destruct (ksub t) eqn:Es; [|discriminate]. injection Ew as <- _.
+  - destruct (ksub t) eqn:Es; [|discriminate]. injection Ew as <- _ _.
     split; [|split].
     + constructor; cbn; try reflexivity.
       apply gvf_prefix_frame; cbn; try reflexivity; [|exact Hpf].
@@ -141,21 +141,27 @@ Definition apply_wr_o (w : option wr) (prev : key -> option (pv * bool)) (x : ke
 Definition apply_wr_a (w : option wr) (prev : key -> option pv) (x : key) : option pv :=
   match wr_a w x with Some y => y | None => prev x end.
 
-(* set_option(buildtype, v) = one write of buildtype, then -- if the value changed and is
-   not 'custom' -- the writes of debug and optimization from DEFAULT_DEPENDENTS *)
+(* set_option(buildtype, v) = one write of buildtype, then -- if the VALUE changed and is
+   not 'custom' -- the writes of debug and optimization from DEFAULT_DEPENDENTS.
+   `old` is the value the option (or the subproject's augment) held before; the flag
+   returned is `changed or unsaved` (options.py: an option that stops yielding or a
+   subproject that gets its first override is reported as changed, too). *)
 Theorem buildtype_expansion f s k v s' ch :
   kmach k = Host -> kname k = bt_name -> pfx_ok s ->
   (forall rk o, resolve_option s k = Ok (rk, o) -> not_dname o = true) ->
   (forall rk o, resolve_option s (debug_of k) = Ok (rk, o) -> not_dname o = true) ->
   (forall rk o, resolve_option s (optimization_of k) = Ok (rk, o) -> not_dname o = true) ->
   set_option (S (S f)) s k v true = Ok (s', ch) ->
-  exists v3, canon s k v = Ok v3 /\ R s s' /\
-    ((ch = false \/ v3 = PStr (s2l "custom")) /\
+  exists v3 rk o s2 old unsaved,
+    canon s k v = Ok v3 /\ resolve_for_set s k = Ok (rk, o) /\
+    store_value s k rk v3 = Ok (s2, old, unsaved) /\
+    ch = negb (pv_eqb old v3) || unsaved /\ R s s' /\
+    ((pv_eqb old v3 = true \/ v3 = PStr (s2l "custom")) /\
        (forall x, oslot s' x = apply_wr_o (set_wr s k v) (oslot s) x) /\
        (forall x, aslot s' x = apply_wr_a (set_wr s k v) (aslot s) x)
      \/
      exists b optimization debug,
-       ch = true /\ v3 = PStr b /\ sassoc DEFAULT_DEPENDENTS b = Some (optimization, debug) /\
+       pv_eqb old v3 = false /\ v3 = PStr b /\ sassoc DEFAULT_DEPENDENTS b = Some (optimization, debug) /\
        (forall x, oslot s' x =
           apply_wr_o (set_wr s (optimization_of k) (PStr optimization))
             (apply_wr_o (set_wr s (debug_of k) (PBool debug))
@@ -170,15 +176,15 @@ Proof.
   assert (Hb : str_eqb (kname k) (s2l "buildtype") = true) by (rewrite Hn; vm_compute; reflexivity).
   rewrite (set_option_bt (S f) s k v Hp Hb Hd) in E.
   apply bind_ok in E as (v3 & Ec & E). apply bind_ok in E as ([rk o] & Er & E).
-  apply bind_ok in E as ([s2 old] & Ew & E). cbn [fst snd] in E.
-  destruct (write_effect s k v v3 rk o s2 old Hh Hp Hpf Ec Er Ew) as (R2 & O2 & A2).
-  exists v3. split; [exact Ec|].
+  apply bind_ok in E as ([[s2 old] u] & Ew & E). cbn [fst snd] in E.
+  destruct (write_effect s k v v3 rk o s2 old u Hh Hp Hpf Ec Er Ew) as (R2 & O2 & A2).
+  exists v3, rk, o, s2, old, u. split; [exact Ec|]. split; [exact Er|]. split; [exact Ew|].
   destruct (negb (pv_eqb old v3) && negb (pv_eqb v3 (PStr (s2l "custom")))) eqn:Echg.
   - apply andb_prop in Echg as [Ech Ecu].
     destruct v3 as [b| | |]; try discriminate E.
     destruct (sassoc DEFAULT_DEPENDENTS b) as [[optimization debug]|] eqn:Et; [|discriminate].
     apply bind_ok in E as ([s3 c3] & E3 & E). apply bind_ok in E as ([s4 c4] & E4 & E).
-    cbn [fst] in *. injection E as <- <-.
+    cbn [fst] in *. injection E as <- <-. split; [reflexivity|].
     assert (P2 : pfx_ok s2) by (eapply R_pfx_ok; eassumption).
     assert (Hdk : kmach (debug_of k) = Host) by exact Hh.
     assert (Hok : kmach (optimization_of k) = Host) by exact Hh.
@@ -191,15 +197,15 @@ Proof.
     destruct (set_option_effect f s3 (optimization_of k) (PStr optimization) s4 c4 Hok Po P3
                 (R_not_dname _ _ _ R13 Hdo) E4) as (R4 & O4 & A4).
     split; [eapply R_trans; eassumption|]. right.
-    exists b, optimization, debug. repeat split; try assumption.
+    exists b, optimization, debug. apply negb_true_iff in Ech. repeat split; try assumption.
     + intros x. unfold apply_wr_o. rewrite O4, O3, O2.
       rewrite (R_set_wr _ _ _ _ R13), (R_set_wr _ _ _ _ R2). reflexivity.
     + intros x. unfold apply_wr_a. rewrite A4, A3, A2.
       rewrite (R_set_wr _ _ _ _ R13), (R_set_wr _ _ _ _ R2). reflexivity.
-  - injection E as <- <-. split; [exact R2|]. left.
+  - injection E as <- <-. split; [reflexivity|]. split; [exact R2|]. left.
     split; [|split; [exact O2 | exact A2]].
     apply andb_false_iff in Echg as [Echg|Echg].
-    + left. exact Echg.
+    + left. apply negb_false_iff in Echg. exact Echg.
     + right. apply negb_false_iff in Echg. destruct v3; cbn in Echg; try discriminate.
       apply str_eqb_eq in Echg. subst. reflexivity.
 Qed.
@@ -280,7 +286,7 @@ Proof.
   apply bind_ok in H as ([sB ch] & Hu & H). cbn [fst] in H.
   unfold set_user_option in Hu. rewrite Hb, andb_false_r, Hm in Hu.
   exists sB, ch. split; [exact Hu|].
-  destruct (buildtype_expansion f s k vb sB ch Hh Hn Hpf Hd Hdd Hdo Hu) as (v3 & _ & RB & _).
+  destruct (buildtype_expansion f s k vb sB ch Hh Hn Hpf Hd Hdd Hdo Hu) as (v3 & rk0 & o0 & s20 & old0 & u0 & _ & _ & _ & _ & RB & _).
   split; [exact RB|].
   intros q v0 Hqh Hqs Hqp Hqo Hqa.
   assert (HGB : Forall (good_entry sB) ([] ++ rest)).
